@@ -2,7 +2,7 @@
 import random
 from fractions import Fraction
 
-from harness import core, tlc
+from harness import core, par, replayjob, tlc
 from harness.drivers import bubbledew as db
 
 ASSUME = [
@@ -26,6 +26,71 @@ def key_of(step, clause):
     return 'BubbleDew:%s:scaled=%s,permuted=%s,n=%d:%s' % (step['op'], a['scaled'], a['permuted'], sum(1 for v in a['w'] if v), clause)
 
 
+def exact_case(seed):
+    rng = random.Random(seed)
+    n = len(db.A)
+    present = rng.sample(range(n), rng.randint(1, 5))
+    w = [0] * n
+    for i in present:
+        w[i] = rng.choice([1, 1, 2, 5, 1000])
+    if max(w) == 1000 and rng.random() < 0.5:
+        w = [v if v != 1000 else 1 for v in w]
+        w[rng.choice(present)] = 1000          # one dominant component, the others at trace level
+    op = rng.choice(['bubble_P', 'bubble_T', 'dew_P', 'dew_T'])
+    W, swa = sum(w), sum(w[i] * db.A[i] for i in range(n))
+    swoa = sum(Fraction(w[i], db.A[i]) for i in range(n))
+    T = rng.randint(260, 480)
+    if op.endswith('_P'):
+        spec = T
+    else:
+        # a pressure (integer kPa) whose bubble / dew temperature lies in 260-480 K
+        Pexact = (T * Fraction(swa, W)) if op == 'bubble_T' else (T * W / swoa)
+        spec = max(1, int(Pexact))
+        if spec > 2000:
+            return None
+    scale = rng.choice([1., 1. / W, 3.7, 1e-3, 250.])
+    perm = list(range(n))
+    if rng.random() < 0.6:
+        rng.shuffle(perm)
+    obs = db.exact(op, w, spec, scale, perm)
+    a = dict(w=w, scaled=scale != 1. / W, permuted=perm != list(range(n)))
+    a['T' if op.endswith('_P') else 'P'] = spec
+    return dict(op=op, a=a, post=dict(w=w), obs=obs, job=['exact_case', seed])
+
+
+def measured_case(seed):
+    rng = random.Random(seed)
+    n = len(db.A)
+    fam = rng.choice(sorted(db.FAMILIES))
+    ideal = rng.random() < 0.4
+    ids = rng.sample(db.FAMILIES[fam], rng.randint(1, 5))
+    z = [rng.choice([0.02 + rng.random(), 0.02 + rng.random(), 1e-6, 0.]) for _ in ids]
+    if sum(1 for v in z if v > 0) == 0:
+        z[0] = 1.
+    T0 = rng.uniform(280, 440)
+    perm = list(range(len(ids)))
+    rng.shuffle(perm)
+    obs = db.measured(fam, ideal, ids, z, T0, rng.choice([2., 1e-3, 40.]), perm)
+    return dict(op='measured', a=dict(family=fam, ideal=ideal, ids=ids, T=int(T0 * 1000), z9=[int(v * 1e9) for v in z], w=[0] * n, tol=1000),
+                post=dict(w=[0] * n), obs=obs, job=['measured_case', seed])
+
+
+def as_trace(step):
+    if step is None:
+        return None
+    s = dict(step)
+    s.pop('job', None)
+    return dict(id='B0', mode='fan', init=dict(w=[0] * len(db.A)), steps=[s])
+
+
+def replay_exact(seed):
+    return as_trace(exact_case(seed))
+
+
+def replay_measured(seed):
+    return as_trace(measured_case(seed))
+
+
 def run(ctx):
     rng = random.Random(ctx.seed)
     quick = ctx.quick
@@ -37,47 +102,8 @@ def run(ctx):
     ctx.note('MC BubbleDew: %d distinct states' % r.distinct)
     steps = []
     n = len(db.A)
-    for k in range(500 if quick else 15000):
-        present = rng.sample(range(n), rng.randint(1, 5))
-        w = [0] * n
-        for i in present:
-            w[i] = rng.choice([1, 1, 2, 5, 1000])
-        if max(w) == 1000 and rng.random() < 0.5:
-            w = [v if v != 1000 else 1 for v in w]
-            w[rng.choice(present)] = 1000          # one dominant component, the others at trace level
-        op = rng.choice(['bubble_P', 'bubble_T', 'dew_P', 'dew_T'])
-        W, swa = sum(w), sum(w[i] * db.A[i] for i in range(n))
-        swoa = sum(Fraction(w[i], db.A[i]) for i in range(n))
-        T = rng.randint(260, 480)
-        if op.endswith('_P'):
-            spec = T
-        else:
-            # a pressure (integer kPa) whose bubble / dew temperature lies in 260-480 K
-            Pexact = (T * Fraction(swa, W)) if op == 'bubble_T' else (T * W / swoa)
-            spec = max(1, int(Pexact))
-            if spec > 2000:
-                continue
-        scale = rng.choice([1., 1. / W, 3.7, 1e-3, 250.])
-        perm = list(range(n))
-        if rng.random() < 0.6:
-            rng.shuffle(perm)
-        obs = db.exact(op, w, spec, scale, perm)
-        a = dict(w=w, scaled=scale != 1. / W, permuted=perm != list(range(n)))
-        a['T' if op.endswith('_P') else 'P'] = spec
-        steps.append(dict(op=op, a=a, post=dict(w=w), obs=obs))
-    for k in range(80 if quick else 3000):
-        fam = rng.choice(sorted(db.FAMILIES))
-        ideal = rng.random() < 0.4
-        ids = rng.sample(db.FAMILIES[fam], rng.randint(1, 5))
-        z = [rng.choice([0.02 + rng.random(), 0.02 + rng.random(), 1e-6, 0.]) for _ in ids]
-        if sum(1 for v in z if v > 0) == 0:
-            z[0] = 1.
-        T0 = rng.uniform(280, 440)
-        perm = list(range(len(ids)))
-        rng.shuffle(perm)
-        obs = db.measured(fam, ideal, ids, z, T0, rng.choice([2., 1e-3, 40.]), perm)
-        steps.append(dict(op='measured', a=dict(family=fam, ideal=ideal, ids=ids, T=int(T0 * 1000), z9=[int(v * 1e9) for v in z], w=[0] * n, tol=1000),
-                          post=dict(w=[0] * n), obs=obs))
+    steps = [s for s in par.pmap(exact_case, [('%d:x%d' % (ctx.seed, k),) for k in range(500 if quick else 15000)]) if s]
+    steps += par.pmap(measured_case, [('%d:m%d' % (ctx.seed, k),) for k in range(80 if quick else 3000)])
     per = 50
     traces = [dict(id='B%d' % i, mode='fan', init=dict(w=[0] * n), steps=steps[i * per:(i + 1) * per]) for i in range((len(steps) + per - 1) // per)]
     defs, cfgc = db.tla_constants()
@@ -92,7 +118,7 @@ def run(ctx):
             cases.append((l not in ooc, [s['op'], s['a'], s['obs'] if s['op'] == 'measured' else None]))
             if l in bad:
                 ctx.violation(key_of(s, bad[l]), '%s %r: %s obs=%r' % (s['op'], s['a'], bad[l], s['obs']),
-                              dict(kind='note', detail='re-run the check with the same seed', op=s['op'], a=s['a'], clause=bad[l]))
+                              dict(kind='job', func='replay_exact' if s['job'][0] == 'exact_case' else 'replay_measured', args=[s['job'][1]], clause=bad[l]))
             elif l not in ooc:
                 n_ok += 1
                 per_op[s['op']] = per_op.get(s['op'], 0) + 1
@@ -107,6 +133,4 @@ def run(ctx):
 
 
 def replay(ctx, data):
-    print('# C08 violations: re-run ./check C08 with the recorded seed')
-    print(data.get('what', ''))
-    return 1
+    return replayjob.run('C08', data, dict(replay_exact=replay_exact, replay_measured=replay_measured), 'BubbleDew', db.tla_constants())
